@@ -61,6 +61,9 @@ CHECKS = {
  "C15": ("model_checking", "explicit-state BFS over command-line histories with content de-duplication; per-transition snapshot invariant",
          "breadth-first search over all sequences (<=2 quick, <=3 thorough) of a 26-entry menu covering every subcommand from 5 initial trees (plain, Git with ignored/untracked files, symlinks pointing outside the project, dep5, read-only files); after each transition a content + mode + mtime snapshot of the project and of a sentinel directory outside it is compared with what the command is documented to touch",
          ".git internals not compared; network stubbed; pool virtual", "4/C15"),
+ "C17": ("model_checking", "regex-to-automaton extraction of both matchers + complete product exploration (language equality), exhaustive paragraph-sequence enumeration through the real command, fault enumeration of the write/unlink order",
+         "every dep5 pattern over {a . / * ? \\} up to length 4 (quick) / 6 (thorough): the automaton of python-debian's matcher and of the matcher produced by the real conversion pipeline are compared in both directions over paths of any length (short paths and every counterexample replayed on the real matchers); every sequence of <= 3 Files paragraphs from a 12-entry menu and 36 field variants go through `reuse convert-dep5` with lint --json compared before/after; 6 fault/refusal cells for the write-then-unlink order",
+         "realistic relative paths without whitespace; two recorded known findings ('?' and whole-segment '*')", "4/C17"),
 }
 PENDING_REASON = "check not built yet in this session (design in DESIGN.md section 4); not claimed until its machinery exists"
 
